@@ -1,5 +1,8 @@
 pub mod c01;
 pub mod c02;
+pub mod c09;
+pub mod c10;
+pub mod c19;
 
 use crate::ctx::Ctx;
 
@@ -7,6 +10,9 @@ pub fn run(check: &str, ctx: &mut Ctx, _args: &[String]) -> bool {
     match check {
         "c01" => c01::run(ctx),
         "c02" => c02::run(ctx),
+        "c09" => c09::run(ctx),
+        "c10" => c10::run(ctx),
+        "c19" => c19::run(ctx),
         _ => return false,
     }
     true
@@ -17,6 +23,9 @@ pub fn replay(check: &str, j: &serde_json::Value) -> bool {
     match check {
         "c01" => c01::replay(j),
         "c02" => c02::replay(j),
+        "c09" => c09::replay(j),
+        "c10" => c10::replay(j),
+        "c19" => c19::replay(j),
         _ => {
             eprintln!("no replay for {check}");
             false
